@@ -266,3 +266,115 @@ Proof.
                             (armor_printable _ Hck) Hne Hlen) as [c [Htb ->]].
   exists c. split; [exact Htb|reflexivity].
 Qed.
+
+(* ------------------------------------------------------------------------------------------------ *)
+(* from the text of the specification to the bare sentence: tag block and trailing white space          *)
+Definition ends_with (e : Z) (a : list Z) : Prop := exists b, a = b ++ [e].
+
+Lemma ends_with_one : forall e, ends_with e [e].
+Proof. intros e. now exists []. Qed.
+Lemma ends_with_cons : forall e c a, ends_with e a -> ends_with e (c :: a).
+Proof. intros e c a [b ->]. now exists (c :: b). Qed.
+Lemma ends_with_app : forall e x a, ends_with e a -> ends_with e (x ++ a).
+Proof. intros e x a [b ->]. exists (x ++ b). now rewrite app_assoc. Qed.
+
+Lemma strip_wrapped : forall c r e ws,
+  PyBytes.is_space c = false -> ends_with e (c :: r) -> PyBytes.is_space e = false ->
+  forallb PyBytes.is_space ws = true -> strip ((c :: r) ++ ws) = c :: r.
+Proof.
+  intros c r e ws Hc [b Hb] He Hws. unfold strip. cbn [app]. rewrite lstrip_nonspace by exact Hc.
+  change (c :: r ++ ws) with ((c :: r) ++ ws). rewrite rstrip_app_spaces by exact Hws.
+  rewrite Hb. now apply rstrip_last_nonspace.
+Qed.
+
+Lemma bare_ends : forall t1 t2 y1 y2 y3 n i seq chan chunk f h1 h2,
+  ends_with h2 (bare_sentence t1 t2 y1 y2 y3 n i seq chan chunk f h1 h2).
+Proof.
+  intros. unfold bare_sentence.
+  repeat first [apply ends_with_one | apply ends_with_app | apply ends_with_cons].
+Qed.
+
+Definition tag_part (tb : option (list Z)) : list Z :=
+  match tb with Some t => 92 :: t ++ [92] | None => [] end.
+
+(* what opts_ok says, field by field *)
+Lemma opts_ok_inv : forall o, opts_ok o = true ->
+  exists t1 t2 y1 y2 y3 h1 h2,
+    o_talker o = [t1; t2] /\ o_type o = [y1; y2; y3] /\ o_checksum o = [h1; h2] /\
+    forallb is_upper [t1; t2] = true /\ is_vdm_vdo [y1; y2; y3] = true /\
+    existsb (fun c => if list_eq_dec Z.eq_dec c (o_channel o) then true else false) channels = true /\
+    forallb is_hexdigit [h1; h2] = true /\
+    match o_tagblock o with Some tb => tb <> [] /\ nosep 92 tb | None => True end /\
+    forallb PyBytes.is_space (o_trailing o) = true.
+Proof.
+  intros o H. unfold opts_ok in H.
+  repeat (apply andb_prop in H; let K := fresh "K" in destruct H as [H K]).
+  destruct (o_talker o) as [|t1 [|t2 [|? ?]]]; try discriminate.
+  destruct (type_word _ K4) as [y1 [y2 [y3 [Ey _]]]].
+  destruct (o_checksum o) as [|h1 [|h2 [|? ?]]]; try discriminate.
+  exists t1, t2, y1, y2, y3, h1, h2. rewrite Ey in *. repeat split; try assumption.
+  destruct (o_tagblock o) as [tb|]; [|exact I].
+  apply andb_prop in K0. destruct K0 as [A B]. split.
+  - destruct tb; [discriminate|discriminate].
+  - revert B. apply nosep_of_forallb. intros c Hc. unfold BACKSLASH in Hc. lia.
+Qed.
+
+Lemma sentence_text_shape : forall o n i seq chunk f t1 t2 y1 y2 y3 h1 h2,
+  o_talker o = [t1; t2] -> o_type o = [y1; y2; y3] -> o_checksum o = [h1; h2] ->
+  sentence_text o n i seq chunk f =
+  (tag_part (o_tagblock o) ++ bare_sentence t1 t2 y1 y2 y3 n i seq (o_channel o) chunk f h1 h2) ++ o_trailing o.
+Proof.
+  intros o n i seq chunk f t1 t2 y1 y2 y3 h1 h2 Et Ey Eh.
+  unfold sentence_text, bare_sentence, tag_part, seq_field. rewrite Et, Ey, Eh.
+  unfold BACKSLASH, BANG, CarrierSpec.COMMA, STAR.
+  destruct (o_tagblock o) as [tb|]; repeat (first [rewrite <- app_assoc | progress cbn [app]]); reflexivity.
+Qed.
+
+(* ------------------------------------------------------------------------------------------------ *)
+(* parse_carrier                                                                                       *)
+Definition carrier_bits (chunk : list Z) (f : nat) : bits := firstn (6 * length chunk - f) (all_sixbits chunk).
+
+Theorem parse_carrier : forall o n i seq chunk f,
+  opts_ok o = true -> (1 <= n <= 9)%nat -> (1 <= i <= 9)%nat -> seq_ok seq -> (f <= 5)%nat ->
+  forallb is_armor chunk = true -> chunk <> [] -> (Z.of_nat (length chunk) <= MAX_PAYLOAD_LEN) ->
+  exists c, c_tag_block c = o_tagblock o /\
+    produce (sentence_text o n i seq chunk f) =
+    Ok (SAis (mkAis c (Z.of_nat n) (Z.of_nat i) (option_map Z.of_nat seq) (o_channel o) chunk (carrier_bits chunk f)
+                    (get_int (carrier_bits chunk f) 0 6 false) None)).
+Proof.
+  intros o n i seq chunk f Ho Hn Hi Hseq Hf Hck Hne Hlen.
+  destruct (opts_ok_inv o Ho) as [t1 [t2 [y1 [y2 [y3 [h1 [h2 [Et [Ey [Eh [Ht [Hy [Hch [Hh [Htb Hws]]]]]]]]]]]]]]].
+  rewrite (sentence_text_shape o n i seq chunk f _ _ _ _ _ _ _ Et Ey Eh).
+  destruct (produce_inner_bare t1 t2 y1 y2 y3 n i seq (o_channel o) chunk f h1 h2 Ht Hy Hch Hh Hn Hi Hseq Hf Hck Hne Hlen)
+    as [c [Hctb Hprod]].
+  fold (carrier_bits chunk f) in Hprod.
+  set (bare := bare_sentence t1 t2 y1 y2 y3 n i seq (o_channel o) chunk f h1 h2) in *.
+  assert (Hh2 : PyBytes.is_space h2 = false).
+  { cbn [forallb] in Hh. apply andb_prop in Hh. destruct Hh as [_ H2]. apply andb_prop in H2. destruct H2 as [H2 _].
+    exact (proj2 (proj2 (hex_facts h2 H2))). }
+  assert (Hend : ends_with h2 bare) by apply bare_ends.
+  assert (Hbare : exists r, bare = 33 :: r) by (now eexists).
+  destruct Hbare as [r Hr].
+  unfold produce.
+  destruct (o_tagblock o) as [tb|] eqn:Etb.
+  - (* a leading tag block *)
+    destruct Htb as [Htbne Htbsep].
+    assert (Hshape : tag_part (Some tb) ++ bare = 92 :: tb ++ 92 :: bare).
+    { unfold tag_part. cbn [app]. rewrite <- app_assoc. reflexivity. }
+    rewrite Hshape.
+    assert (Hstrip : strip ((92 :: tb ++ 92 :: bare) ++ o_trailing o) = 92 :: tb ++ 92 :: bare).
+    { apply (strip_wrapped 92 _ h2); [reflexivity| |exact Hh2|exact Hws].
+      apply ends_with_cons, ends_with_app, ends_with_cons. exact Hend. }
+    unfold pre_process. rewrite Hstrip. cbn [length Nat.eqb]. rewrite py_index_0. cbn [bind].
+    unfold TAG_BLOCK_START. cbn [Z.eqb Pos.eqb]. rewrite py_slice_tail.
+    rewrite (bfind_app 92 tb bare Htbsep). rewrite py_slice_inner, py_slice_after. cbn [bind].
+    rewrite Hprod. cbn [bind]. destruct tb as [|x tb']; [contradiction|]. cbn [nonempty sentence_set_tag_block].
+    eexists. split; [|reflexivity]. reflexivity.
+  - (* no tag block *)
+    cbn [tag_part app]. rewrite Hr in *.
+    assert (Hstrip : strip ((33 :: r) ++ o_trailing o) = 33 :: r).
+    { apply (strip_wrapped 33 _ h2); [reflexivity|exact Hend|exact Hh2|exact Hws]. }
+    unfold pre_process. rewrite Hstrip. cbn [length Nat.eqb]. rewrite py_index_0. cbn [bind].
+    unfold TAG_BLOCK_START. cbn [Z.eqb Pos.eqb]. cbn [bind]. rewrite Hprod. cbn [bind].
+    exists c. split; [exact Hctb|reflexivity].
+Qed.
